@@ -322,6 +322,11 @@ def run(ctx, rep):
     from . import c06
 
     c06.rule_moveonce(ctx, rep)  # values moved bitwise into a block: their source is disarmed exactly once, or they are destroyed twice
+    # what a handle destroys at its last release is what its constructor wrote: every payload field written before the handle
+    # (typed as initialised) exists, as many elements as the block was sized for (the constructor rules of C06)
+    c06.rule_init(ctx, rep)
+    c06.rule_lenflow(ctx, rep)
+    c06.rule_iterloop(ctx, rep)
     balance.rule_writeback(ctx, rep)
     rep.floor("R-WRITEBACK", 0, "OffsetArc::make_mut today; a copy-on-write that never moves the handle out of its place has nothing to write back")
     rep.floor("R-BAL", 150, "API bodies (default configuration has 170+)")
